@@ -3,6 +3,7 @@ mod backend;
 mod clock;
 mod codec;
 mod curves;
+mod envseam;
 mod faults;
 mod ffiyield;
 mod fixtures;
